@@ -30,8 +30,9 @@ RULE = ('iana_query: every record of the four shipped IANA registries (independe
         'boundary values and random addresses; oui_index/iab_index: generated well-formed registries (1-30 records, '
         'LF/CRLF/mixed line ends, with/without header, duplicate identifiers, 0-6 address lines, blank and '
         'whitespace-only lines, non-ASCII bytes, optional missing final newline) and the shipped iab.txt as a whole; '
-        'ieee_lookup: sampled registered and unregistered IAB / OUI identifiers of the shipped indices (all 36-bit '
-        'IAB keys of iab.idx in thorough); idxcheck: whole shipped index files. non-trivial = distinct case whose '
+        'pipeline: a quarter of the generated registries also through create_index_from_registry + load_index; '
+        'ieee_lookup: every IAB key of iab.idx, 2500 sampled OUI keys of oui.idx, the duplicated identifiers, and '
+        'unregistered neighbours; idxcheck: whole shipped index files. non-trivial = distinct case whose '
         'implementation output is not an error (registered identifier, non-empty answer or parsed registry)')
 
 PKG = os.path.dirname(netaddr.__file__)
@@ -131,6 +132,18 @@ def _by_key(rows):
     return d
 
 
+def _idx_by_key(kind):
+    if ('bk', kind) not in _D:
+        _D[('bk', kind)] = _by_key(_read_idx(kind + '.idx'))
+    return _D[('bk', kind)]
+
+
+def _regex_rows_cached(kind):
+    if ('rx', kind) not in _D:
+        _D[('rx', kind)] = _regex_rows(_read_txt(kind + '.txt'), kind)
+    return _D[('rx', kind)]
+
+
 _HEXLINE = re.compile(rb'^[^\n]*\(hex\)[^\n]*(?:\n|\Z)', re.M)
 
 
@@ -193,8 +206,14 @@ def _idx_case(kind, header, recs, tag):
     return Case('%s_index %s' % (kind, _hexline(data)), 'index/%s/%s' % (kind, tag), ('index', kind, header, tuple(recs)))
 
 
+def _pipeline_case(c):
+    """the same generated registry through create_index_from_registry + load_index (oracle-only)"""
+    _, kind, header, recs = c.args
+    return Case(None, c.tag.replace('index/', 'pipeline/'), ('pipeline', kind, header, recs))
+
+
 def _lookup_case(kind, key, tag):
-    rows = _by_key(_read_idx(kind + '.idx')).get(key, [])
+    rows = _idx_by_key(kind).get(key, [])
     text = _read_txt(kind + '.txt')
     use = rows if kind == 'oui' else rows[:1]
     sl = ['%d:%d:%s' % (o, s, text[o:o + s].hex()) for o, s in use]
@@ -261,6 +280,8 @@ def _gen_registry(rng, kind):
         org = _phrase(rng, 1, 4)
         while b'(hex)' in org or b'(base 16)' in org:
             org = _phrase(rng, 1, 4)
+        if rng.random() < 0.05:
+            org += b' (hex) again'            # the marker twice on the record's first line
         lead = rng.choice((b'', b'', b'', b' ', b'\t'))
         lines = [lead + ids.encode() + gap() + b'(hex)' + gap() + org]
         nad = rng.choice((0, 1, 2, 3, 4, 5, 6))
@@ -273,13 +294,13 @@ def _gen_registry(rng, kind):
                 addr.append(rng.choice((b' ', b'\t\t', b' \t ')))
             else:
                 a = _phrase(rng, 1, 5)
-                while b'(hex)' in a or b'(base 16)' in a:
+                while b'(hex)' in a or (b'(base 16)' in a and kind == 'iab'):
                     a = _phrase(rng, 1, 5)
                 addr.append(rng.choice((b'\t\t\t\t', b'    ', b'')) + a + rng.choice((b'', b'', b'  ')))
         if kind == 'oui':
             key = p
             if rng.random() < 0.85:
-                lines.append(('%06X' % p).encode() + gap() + b'(base 16)' + gap() + org)
+                lines.append(('%06X' % p).encode() + gap() + b'(base 16)' + gap() + org.replace(b'(hex)', b'hex'))
             lines += addr
         else:
             x = rng.choice(sufpool) if rng.random() < 0.4 else rng.getrandbits(12)
@@ -288,7 +309,7 @@ def _gen_registry(rng, kind):
             tok = '%03X%03X-%03XFFF' % (x, low, x)
             if rng.random() < 0.15:
                 tok = tok.lower()
-            b16 = rng.choice((b'', b'', b' ')) + tok.encode() + gap() + b'(base 16)' + gap() + org
+            b16 = rng.choice((b'', b'', b' ')) + tok.encode() + gap() + b'(base 16)' + gap() + org.replace(b'(hex)', b'hex')
             pos = 0 if rng.random() < 0.8 else rng.randint(0, len(addr))
             lines += addr[:pos] + [b16] + addr[pos:]
         if rng.random() < 0.7:
@@ -343,24 +364,27 @@ def generate(rng, tier):
         w = 32 if ver == 4 else 128
         for v in (0, 1, m, m - 1, 1 << (w - 1), (1 << (w - 1)) - 1):
             cases.append(_iana_case(ver, v, 'boundary'))
-        for _ in range(250 * mult):
+        for _ in range(600 * mult):
             cases.append(_iana_case(ver, rng.getrandbits(w), 'random'))
     T = _xml_tables()
-    for _ in range(250 * mult):              # random addresses inside random records
+    for _ in range(800 * mult):              # random addresses inside random records
         topic = rng.choice(('IPv4', 'Multicast', 'Multicast', 'IPv6', 'IPv6_unicast'))
         lo, hi, _k = rng.choice(T[topic])
         cases.append(_iana_case(4 if topic in ('IPv4', 'Multicast') else 6, rng.randint(lo, hi), 'inside/' + topic))
     # generated registries
-    for _ in range(220 * mult):
-        cases.append(_gen_registry(rng, 'oui'))
-        cases.append(_gen_registry(rng, 'iab'))
+    for i in range(600 * mult):
+        for kind in ('oui', 'iab'):
+            c = _gen_registry(rng, kind)
+            cases.append(c)
+            if i % 4 == 0:
+                cases.append(_pipeline_case(c))
     # lookups against the shipped indices
     for kind, bits in (('iab', 36), ('oui', 24)):
         rows = _read_idx(kind + '.idx')
         keys = sorted(set(k for k, _, _ in rows))
-        bk = _by_key(rows)
+        bk = _idx_by_key(kind)
         dups = [k for k in keys if len(bk[k]) > 1]
-        n = len(keys) if (tier == 'thorough' and kind == 'iab') else min(len(keys), (700 if kind == 'iab' else 300) * mult)
+        n = len(keys) if kind == 'iab' else min(len(keys), 2500 * mult)
         pick = rng.sample(keys, n)
         for k in pick:
             cases.append(_lookup_case(kind, k, 'registered'))
@@ -368,7 +392,7 @@ def generate(rng, tier):
             cases.append(_lookup_case(kind, k, 'dup-or-edge'))
         keyset = set(keys)
         un = []
-        for k in rng.sample(keys, min(len(keys), 60 * mult)):
+        for k in rng.sample(keys, min(len(keys), 150 * mult)):
             un += [k - 1, k + 1]
         if kind == 'iab':
             un += [(0x0050c2 << 12) | rng.getrandbits(12) for _ in range(40 * mult)]
@@ -471,6 +495,17 @@ def impl(c):
         return _run_parser(kind, header + b''.join(r for _, r in recs))
     if a[0] == 'file':
         return _run_parser(a[1], _read_txt(a[1] + '.txt'))
+    if a[0] == 'pipeline':
+        _, kind, header, recs = a
+        out = io.StringIO()
+        try:
+            ieee.create_index_from_registry(io.BytesIO(header + b''.join(r for _, r in recs)), out,
+                                            ieee.OUIIndexParser if kind == 'oui' else ieee.IABIndexParser)
+            idx = {}
+            ieee.load_index(idx, io.BytesIO(out.getvalue().encode('utf-8')))
+        except Exception as e:
+            return '!' + errname(e)
+        return ';'.join('%d=%s' % (k, '+'.join('%d:%d' % t for t in idx[k])) for k in sorted(idx))
     if a[0] == 'lookup':
         _, kind, key = a
         try:
@@ -534,10 +569,21 @@ def oracle(c, got):
         if got != exp:
             return '%s index rows %s, the records are delimited by %s' % (kind, got[:300], exp[:300])
         return None
+    if a[0] == 'pipeline':
+        _, kind, header, recs = a
+        off = len(header)
+        d = {}
+        for key, rec in recs:
+            d.setdefault(key, []).append((off, len(rec)))
+            off += len(rec)
+        exp = ';'.join('%d=%s' % (k, '+'.join('%d:%d' % t for t in d[k])) for k in sorted(d))
+        if got != exp:
+            return '%s index written and loaded back is %s, the records are delimited by %s' % (kind, got[:300], exp[:300])
+        return None
     if a[0] == 'file':
         kind = a[1]
         data = _read_txt(kind + '.txt')
-        ref = plist(['%s:%d:%d' % (k, o, s) for k, o, s in _regex_rows(data, kind)])
+        ref = plist(['%s:%d:%d' % (k, o, s) for k, o, s in _regex_rows_cached(kind)])
         if got != ref:
             return 'parser rows over shipped %s.txt differ from an independent reading of the text' % kind
         idx = plist(['%d:%d:%d' % r for r in _read_idx(kind + '.idx')])
@@ -546,7 +592,7 @@ def oracle(c, got):
         return None
     if a[0] == 'lookup':
         _, kind, key = a
-        rows = _by_key(_read_idx(kind + '.idx')).get(key, [])
+        rows = _idx_by_key(kind).get(key, [])
         if not rows:
             return None if got == '!notRegistered' else 'identifier %#x has no index row but lookup gave %s' % (key, got[:120])
         text = _read_txt(kind + '.txt')
@@ -579,7 +625,7 @@ def oracle(c, got):
         if data:
             if rows[-1][1] + rows[-1][2] != len(data):
                 return '%s.idx does not end at the end of %s.txt' % (kind, kind)
-            if _regex_rows(data, kind) != rows:
+            if _regex_rows_cached(kind) != rows:
                 return '%s.idx differs from an independent reading of %s.txt' % (kind, kind)
         return None
     return None
@@ -594,6 +640,11 @@ def repro(c):
         return ("import io; from netaddr.eui import ieee; from netaddr.core import Subscriber; "
                 "C = type('C', (Subscriber,), {'update': lambda self, d: print(d)}); "
                 "p = ieee.%sIndexParser(io.BytesIO(%r)); p.attach(C()); p.parse()" % (a[1].upper(), data))
+    if a[0] == 'pipeline':
+        data = a[2] + b''.join(r for _, r in a[3])
+        return ("import io; from netaddr.eui import ieee; o = io.StringIO(); "
+                "ieee.create_index_from_registry(io.BytesIO(%r), o, ieee.%sIndexParser); d = {}; "
+                "ieee.load_index(d, io.BytesIO(o.getvalue().encode())); d" % (data, a[1].upper()))
     if a[0] == 'file':
         return "run netaddr.eui.ieee.%sIndexParser over the shipped %s.txt and compare with %s.idx" % (a[1].upper(), a[1], a[1])
     if a[0] == 'lookup':
